@@ -1446,6 +1446,9 @@ func runC15(c *core.Ctx) {
 	if part == "" || part == "b" {
 		c15PartB(c, logs)
 	}
+	if part == "" || part == "c" {
+		c15PartC(c)
+	}
 	if part != "" {
 		c.Note("VERIF_C15_PART=%s: only that part was run", part)
 	} else if f, ok := extra["C15"]; ok {
